@@ -100,6 +100,42 @@ impl Method for FixedMethod {
             Suggestion::empty()
         }
     }
+
+    #[cfg(feature = "verif")]
+    fn verif_snapshot(&self, level: u8) -> String {
+        let pending = match self.pending_kar {
+            None => 0,
+            Some(PendingKar::I) => 1,
+            Some(PendingKar::E) => 2,
+            Some(PendingKar::OI) => 3,
+        };
+        let mut map = serde_json::Map::new();
+        map.insert("method".into(), "fixed".into());
+        map.insert("buffer".into(), self.buffer.clone().into());
+        map.insert("typed".into(), self.typed.clone().into());
+        map.insert("pending_kar".into(), pending.into());
+        if level >= 1 {
+            let list: Vec<&str> = self.suggestions.iter().map(|r| r.to_string()).collect();
+            map.insert("suggestions".into(), serde_json::to_value(list).unwrap());
+        }
+        serde_json::Value::Object(map).to_string()
+    }
+
+    #[cfg(feature = "verif")]
+    fn verif_set_composition(&mut self, buffer: &str, typed: &str, pending_kar: u8) -> bool {
+        self.buffer.clear();
+        self.buffer.push_str(buffer);
+        self.typed.clear();
+        self.typed.push_str(typed);
+        self.pending_kar = match pending_kar {
+            1 => Some(PendingKar::I),
+            2 => Some(PendingKar::E),
+            3 => Some(PendingKar::OI),
+            _ => None,
+        };
+        self.suggestions.clear();
+        true
+    }
 }
 
 impl FixedMethod {
